@@ -122,7 +122,7 @@ pub fn run(tier: &str, seed: u64, em: &mut Emitter) {
         }
     }
     // long one-sided forks (sizes around the powers of two and ten that caps and batch sizes like)
-    let sizes: &[usize] = if tier == "thorough" { &[40, 130, 260, 520, 1030, 2100, 4200, 8300, 16500] } else { &[70, 300, 1100, 4500] };
+    let sizes: &[usize] = if tier == "thorough" { &[40, 130, 260, 520, 1030, 2100, 4200, 8300, 16500] } else { &[70, 300, 1100, 4500, 9000] };
     for n in sizes {
         let (n, sd) = (*n, r.next());
         em.emit("large-fork", Sx::L(vec![Sx::N(7), Sx::N(n as i128)]), guarded(move || run_large(n, sd)));
